@@ -58,7 +58,7 @@ try:
         dst = os.path.join("/verif/seeded", sid)
         os.makedirs(dst, exist_ok=True)
         for f in ("patch.diff", "demo.py", "meta.json"):
-            if os.path.exists(os.path.join(src, f)):
+            if os.path.exists(os.path.join(src, f)) and os.path.abspath(src) != os.path.abspath(dst):
                 shutil.copy(os.path.join(src, f), os.path.join(dst, f))
         meta_p = os.path.join(dst, "meta.json")
         try:
